@@ -66,10 +66,10 @@ type View struct {
 type Case struct {
 	Kind string   `json:"kind"`
 	Muts []string `json:"muts,omitempty"` // mutations applied by the generator (labels only)
-	View View   `json:"view"`
-	Tx   string `json:"tx"` // hex of the full (signed) encoding
-	Ts   uint64 `json:"ts"`
-	Fork bool   `json:"fork"`
+	View View     `json:"view"`
+	Tx   string   `json:"tx"` // hex of the full (signed) encoding
+	Ts   uint64   `json:"ts"`
+	Fork bool     `json:"fork"`
 }
 
 // ---- the fake store ----------------------------------------------------------------
@@ -99,9 +99,9 @@ type Store struct {
 	ghostErr  bool
 	Reads     int // number of store calls made by the code under test
 	// what the code under test actually read (the model case carries exactly these entries)
-	readUtxo                                             map[string]bool
-	readTx                                               map[crypto.Hash]bool
-	readTxOrder                                          []crypto.Hash
+	readUtxo                                              map[string]bool
+	readTx                                                map[crypto.Hash]bool
+	readTxOrder                                           []crypto.Hash
 	readNodes, readCust, readAsset, readMint, readDepLock bool
 }
 
